@@ -145,7 +145,9 @@ class C15(Prop):
             if r.chance(1, 3):
                 # YAML: container placeholders at paths of different depth, deeper first
                 doc = b"top:\n  mid:\n    deep:\n      value: 1\n    other: keep\n  side: 2\nlist:\n  - a\n  - id: b\nlast: z\n"
-                ph = r.choice(['["x","y"]', '{"k1":1,"k2":2}', '"scalar"', '[1]'])
+                ph = r.choice(['["x","y"]', '{"k1":1,"k2":2}', '"scalar"', '[1]',
+                               # STRINGS that look like something else in YAML: they must arrive as strings
+                               '"[REDACTED]"', '"12345"', '"true"', '"null"', '"{redacted}"', '"redacted: by CI"', '"- item"', '"~"', '"1e3"'])
                 pths = r.choice([["$.top.mid.deep.value", "$.last"], ["$.top.mid.deep.value", "$.top.side"], ["$.last", "$.top.mid.deep.value"],
                                  ["$.top.mid.deep.value", "$.list[1].id", "$.last"], ["$.top.mid.other", "$.last"]])
                 exp = {"top": {"mid": {"deep": {"value": 1}, "other": "keep"}, "side": 2}, "list": ["a", {"id": "b"}], "last": "z"}
@@ -228,6 +230,25 @@ class C15(Prop):
                 if norm_ph(got) != norm_ph(exp):
                     fails.append({"msg": "obs %d: masked document differs from the expected one" % idx})
         return fails
+
+    def known_signature(self, finding, case, ops, results, failure):
+        if finding["id"] == "K13" and failure["msg"].startswith("yamlset"):
+            bad = lambda x: isinstance(x, str) and (re.match(r"^[-?]([ \t].*)?$", x, re.S) or x in (".inf", "-.inf", ".nan"))
+            def holds(v, inlist=False):
+                if isinstance(v, list):
+                    return any(holds(x, True) for x in v)
+                if isinstance(v, dict):
+                    return any(holds(x, inlist) for x in v.values())
+                return inlist and bool(bad(v))
+            for o in case["ops"]:
+                for m in o.get("matchers", []) if o.get("op") == "yamlset" else []:
+                    for k in ("placeholder", "ret"):
+                        try:
+                            if k in m and holds(json.loads(m[k])):
+                                return True
+                        except ValueError:
+                            pass
+        return False
 
     def nontrivial(self, case, ops, results):
         return any(r[0] == "jsonset" and r[2].get("err") == "0" for r in results)
